@@ -97,7 +97,16 @@ const (
 	szBad // out of range: Marshal must fail (where the type can fail)
 )
 
+// bigBias > 0 shifts the size-class mix towards large and out-of-range values (thorough tier).
+var bigBias int
+
 func (r *rng) sizeClass() int {
+	if bigBias > 0 && r.chance(4) {
+		if r.chance(3) {
+			return szBad
+		}
+		return szLarge
+	}
 	switch x := r.intn(20); {
 	case x < 3:
 		return szMin
@@ -434,6 +443,19 @@ func genTWCC(r *rng, sz int) *rtcp.TransportLayerCC {
 		}
 	}
 	t.PacketStatusCount = uint16(total)
+	if total > 1 && r.chance(4) {
+		// the last chunk reports more symbols than the packet status count covers (legal: a status vector
+		// chunk always carries 7 or 14 symbols), or - rarely - the count promises more than the chunks hold
+		if r.chance(5) {
+			t.PacketStatusCount = uint16(total + 1 + r.intn(20))
+		} else {
+			cut := 1 + r.intn(6)
+			if cut >= total {
+				cut = total - 1
+			}
+			t.PacketStatusCount = uint16(total - cut)
+		}
+	}
 	size := 20 + 2*len(t.PacketChunks)
 	for _, d := range t.RecvDeltas {
 		if d.Type == rtcp.TypeTCCPacketReceivedSmallDelta {
